@@ -51,6 +51,7 @@ func caseList(quick bool) ([]segment, int) {
 			segment{Kind: "offered", Net: n, Count: q(2000, 40000)},
 			segment{Kind: "validate", Net: n, Count: q(7000, 200000)},
 			segment{Kind: "get", Net: n, Count: 256*len(keyLens) + q(1000, 30000)},
+			segment{Kind: "sequence", Net: n, Count: q(3000, 60000)},
 			segment{Kind: "wire-talkreq", Net: n, Count: q(1600, 40000)},
 			segment{Kind: "wire-resp-pong", Net: n, Count: q(200, 4000)},
 			segment{Kind: "wire-resp-nodes", Net: n, Count: q(200, 4000)},
@@ -104,7 +105,7 @@ func main() {
 func parentRun(r *lib.Run) {
 	segs, total := caseList(r.Quick() || os.Getenv("VERIF_C01_RACE") == "1")
 	r.SetRule("cases = seed-determined list over {TALKREQ on each portal sub-protocol (direct handler call and over the in-memory discv5 link), the four TALKRESP kinds (direct response processors and over the wire as answers to the node's own requests), " +
-		"uTP stream bodies after a genuine ACCEPT, raw uTP packets on the utp channel, (content key, content) through ValidateContent and, when accepted, ContentStorage.Put, ContentStorage.Get for peer-chosen keys} x {history, beacon, state nodes with real storage adapters and validators}; " +
+		"uTP stream bodies after a genuine ACCEPT, raw uTP packets on the utp channel, (content key, content) through ValidateContent and, when accepted, ContentStorage.Put, ContentStorage.Get for peer-chosen keys, and stateful sequences that interleave store / look up / FINDCONTENT / OFFER / offered-stream steps around the genuine vectors and their numeric neighbours (followed by a probe that the network's content loop still consumes its queue)} x {history, beacon, state nodes with real storage adapters and validators}; " +
 		"inputs: valid messages, structure-aware mutations, boundary lengths 0/1/2, unknown codes/selectors, the full key matrix (type byte 0x00..0xff x lengths 0,1,2,8,9,10,32,33,34,41,42,64,65,2048), mutated genuine vectors. " +
 		"distinct_nontrivial = distinct (entry point, network, input) that reached the handler / processor / validator / adapter")
 	r.Assume("a crash is a Go panic or fatal error of the process while handling a logged case, or a recovered panic on the calling goroutine; a wedge is a handling call that has not returned after 45 s (the longest legitimate path is a 15 s uTP dial)")
@@ -114,6 +115,7 @@ func parentRun(r *lib.Run) {
 	next, restarts, crashes := 0, 0, 0
 	distinct := map[uint64]struct{}{}
 	maxRestarts := 80
+	wedges := map[string]int{} // per segment: after three wedges the rest of that segment is skipped (45 s each)
 	for next < total {
 		if restarts > maxRestarts {
 			r.Warn("stopped after %d child restarts; %d of %d cases not executed", restarts, total-next, total)
@@ -208,6 +210,18 @@ func parentRun(r *lib.Run) {
 		}
 		next = last + 1
 		restarts++
+		if code == 4 {
+			for _, sg := range segs {
+				if last >= sg.start && last < sg.start+sg.Count {
+					id := sg.Kind + "/" + sg.Net
+					if wedges[id]++; wedges[id] >= 3 && next < sg.start+sg.Count {
+						r.Warn("segment %s wedged %d times; its remaining %d cases are skipped", id, wedges[id], sg.start+sg.Count-next)
+						r.Count("cases_skipped_after_repeated_wedges", sg.start+sg.Count-next)
+						next = sg.start + sg.Count
+					}
+				}
+			}
+		}
 	}
 	for h := range distinct {
 		var b [8]byte
